@@ -317,6 +317,10 @@ func Sqrt(ctx *expr.Context, input system.Collection, args ...expr.Expression) (
 	}
 	// Ceiling number
 	value := math.Sqrt(number)
+	// A non-finite result is not representable as a Decimal.
+	if math.IsNaN(value) || math.IsInf(value, 0) {
+		return system.Collection{}, nil
+	}
 	result := decimal.NewFromFloat(value)
 	return system.Collection{system.Decimal(result)}, nil
 }
